@@ -231,6 +231,14 @@ def gen_cases(rng, tier):
         ops.append(("CKpDec", bytes([b0, 0xa5])))
     ops.append(("CDecode", b""))
     ops.append(("CKpDec", b""))
+    # binary nodes: every type byte x EVERY length up to 70 (the impossible lengths are a range, not a few boundary points),
+    # with bodies whose packed key path decodes (0x00.., 0x10.., 0x81..) and bodies that do not
+    for tb in (0, 1, 2, 3, 255):
+        for ln in range(1, 71):
+            for fill in (0x00, 0x10, 0x81, 0xab):
+                if tb in (3, 255) and fill != 0x00:
+                    continue
+                ops.append(("CParse", bytes([tb]) + bytes([fill]) * (ln - 1)))
     nr = 300 if tier == "quick" else 4000
     for _ in range(nr):
         r = rng.random()
